@@ -5,7 +5,7 @@
 From Coq Require Import ZArith NArith List Bool.
 Import ListNotations.
 Require Import EmbossV.Bits.Model EmbossV.Bits.Proofs_Int EmbossV.Bits.Proofs_Load EmbossV.Bits.Proofs_Read
-               EmbossV.Bits.Proofs_Bcd EmbossV.Bits.Proofs_C02.
+               EmbossV.Bits.Proofs_Bcd EmbossV.Bits.Proofs_Write EmbossV.Bits.Proofs_Portable EmbossV.Bits.Proofs_C02.
 Open Scope Z_scope.
 
 (* container: 1..8 bytes (Null order: 1 byte); field: 1 <= w, 0 <= off, off + w <= 8 * bytes.
@@ -86,6 +86,18 @@ Theorem value_type_wide_enough : forall o bs off w, container_ok o bs -> field_o
   (exists v, read_int true o bs off w = Some v /\ in_cty (sty w) v) /\
   (exists v, bcd_read true (bits_field o bs off w) w = Some v /\ in_cty (uty w) v).
 Proof. exact value_type_wide_enough_l. Qed.
+
+(* the runtime built with EMBOSS_NO_OPTIMIZATIONS (portable shift-and-or loops instead of memcpy + byte swap, the
+   non-two's-complement branch of ConvertToSigned) reads the same values; so every theorem above holds for [false] too *)
+Theorem portable_reads_agree : forall o bs off w ut, container_ok o bs -> field_ok bs off w ->
+  read_uint false o bs off w = read_uint true o bs off w /\
+  read_int false o bs off w = read_int true o bs off w /\
+  bcd_read false (bits_field o bs off w) w = bcd_read true (bits_field o bs off w) w /\
+  bcd_ok false (bits_field o bs off w) w = bcd_ok true (bits_field o bs off w) w /\
+  flag_read false (bits_field o bs off w) = flag_read true (bits_field o bs off w) /\
+  enum_read false (bits_field o bs off w) ut w = enum_read true (bits_field o bs off w) ut w /\
+  float_read_bits false (bits_field o bs off w) w = float_read_bits true (bits_field o bs off w) w.
+Proof. exact portable_reads_agree_l. Qed.
 
 Theorem nonvacuous_container : container_ok BE [18%N; 52%N; 171%N] /\ field_ok [18%N; 52%N; 171%N] 4 12.
 Proof. exact ex_container. Qed.
